@@ -200,7 +200,40 @@ func runSolver(ctx context.Context, s SolverCfg, file string, timeoutS int) solv
 }
 
 // Discharge runs the portfolio on one obligation. For validity checks unsat = proved; for vacuity checks sat = ok.
+// In the thorough tier (all = true) an accepted answer is cross-checked: the two other solvers are run on the same
+// (sliced when it was sliced) query; a definite opposite answer turns the result into "disagree" (reported as a
+// violation: either a solver is wrong or the query is at the edge of a theory); their time-outs are tolerated.
 func Discharge(o *Obligation, dir string, timeoutS int, seed int, all bool) {
+	discharge1(o, dir, timeoutS, seed, all)
+	if !all {
+		return
+	}
+	want := "unsat"
+	if o.Vacuity {
+		want = "sat"
+	}
+	if o.Status != want {
+		return
+	}
+	file := o.SMT
+	if strings.Contains(o.Solver, "(sliced)") {
+		file = filepath.Join(dir, sanitizeFile(o.Name)+".sliced.smt2")
+	}
+	agree := 0
+	for _, sv := range Solvers[1:] {
+		r := runSolver(context.Background(), sv, file, 5)
+		if r.status == want {
+			agree++
+		} else if r.status == "sat" || r.status == "unsat" {
+			o.Status = "disagree"
+			o.Model = fmt.Sprintf("%s answered %s, %s answered %s on %s", o.Solver, want, sv.Name, r.status, file)
+			return
+		}
+	}
+	o.CrossChecked = agree
+}
+
+func discharge1(o *Obligation, dir string, timeoutS int, seed int, all bool) {
 	file := filepath.Join(dir, sanitizeFile(o.Name)+".smt2")
 	text := o.Render(seed)
 	o.SMT = file
